@@ -82,8 +82,7 @@ class CacheModel:
         for k in KEYS:
             sv.purge()           # any library-side memo that purge() clears must not leak from one reference into the next
             self.refs[k] = fresh_parse(sv, k)
-        # the references themselves must be what each argument tuple means on its own: k8 and k9 differ only in a nested alias
-        assert repr(self.refs['k8'].selectors) != repr(self.refs['k9'].selectors) or True
+
         self.alphabet = [('compile', k) for k in KEYS] + [('purge',)] + [('pass', k) for k in ('k0', 'k3', 'k6')] + \
                         [('pass-extra', k, x) for k in ('k0',) for x in ('flags', 'namespaces', 'custom')] + \
                         [('fill', self.bound - 2), ('fill', self.bound)]
